@@ -10,7 +10,8 @@ from schema import emit_schema, o_str
 
 SCHEMA = [o_str("s", "S0"), o_str("t", "T0")]
 LONGNAME = "L" * 260
-ENV = {"a": "VAL", "e": "", "m": "q\"\\${'}\nz", LONGNAME: "LONGV", "L" * 255: "V255", "L" * 256: "V256"}
+ENV = {"a": "VAL", "e": "", "m": "q\"\\${'}\nz", LONGNAME: "LONGV", "L" * 255: "V255", "L" * 256: "V256",
+       "g": "G" * 100, "g31": "g" * 31, "g32": "g" * 32, "g33": "g" * 33, "g300": "h" * 300, "g5000": "k" * 5000}
 ALPHA = {
     "dq": ["a", "n", "x", "e", "0", "1", "7", "8", "\\", "\"", "'", "$", "{", "}", ":", "-", " ", "\n", "\r", "#", "/", "*", "=", "\xe9"],
     "sq": ["a", "n", "\\", "\"", "'", "$", "{", "}", " ", "\n", "#", "/", "*", "=", "\xe9"],
@@ -18,7 +19,7 @@ ALPHA = {
 }
 SPECIAL = set("\\\"'${}#/*")
 ENV_FRAGS = ["${a}", "${n}", "${n:-d}", "${a:-d}", "${e}", "${e:-d}", "${n:d}", "${n:-}", "${}", "${:-d}", "${m}", "${n:-${a}}",
-             "${n:-a b}", "${a", "$a", "$", "${n:-\"}", "${n:-'}", "${a}${a}", "${n:-\\n}"]
+             "${n:-a b}", "${a", "$a", "$", "${n:-\"}", "${n:-'}", "${a}${a}", "${n:-\\n}", "${g}"]
 ESC_FRAGS = ["\\n", "\\t", "\\r", "\\b", "\\f", "\\a", "\\e", "\\v", "\\\\", "\\\"", "\\'", "\\q", "\\$", "\\{", "\\ ", "\\\n", "\\0",
              "\\7", "\\07", "\\007", "\\0007", "\\101", "\\377", "\\400", "\\777", "\\8", "\\18", "\\1234", "\\x41", "\\x4", "\\x414",
              "\\xg", "\\x", "\\x00", "\\xff", "\\xFF", "\\X41", "\\N"]
@@ -53,7 +54,7 @@ class C03:
     variants = ("fast", "asan")
     rule = ("every literal over the byte classes of each quoting context (double-quoted body: 23 classes, single-quoted "
             "body: 15, unquoted text: 18) up to length 4 (quick) / 5 (thorough) is embedded as `s = <literal>\\nt = END` and "
-            "parsed with variables a=VAL, e=<empty>, m=<meta characters>, n unset; plus all concatenations of up to 2 "
+            "parsed with variables a=VAL, e=<empty>, m=<meta characters>, g*=<31..5000 bytes>, n unset; plus all concatenations of up to 2 "
             "(quick) / 3 (thorough) fragments from pools of escape, substitution and comment forms, plus random longer "
             "literals. Oracle: an independent lexer+language model predicts return code and the exact bytes of s and t. "
             "Non-trivial = literal contains a backslash, $, quote or comment marker; distinct = distinct (context, literal)")
@@ -176,6 +177,7 @@ class C03:
         for k in (30, 31, 32, 33, 63, 64, 65, 127, 128, 129, 250, 253, 254, 255, 256, 257, 258, 300, 1023, 1024, 1025, 4096, 70000):
             longs += ["${n:-" + "d" * k + "}", "x${n:-" + "d" * k + "}y", "${" + "L" * k + "}", "${" + "L" * k + ":-dflt}", "${a:-" + "d" * k + "}",
                       "d" * k, "\\n" * k, "${a}" * min(k, 2000)]
+        longs += ["${g31}", "${g32}", "${g33}", "x${g300}y", "${g5000}", "${g}${g}${g}", "a${g32}", "ab${g31}${g33}"]
         for ctx in ALPHA:
             cases.append({"ctx": ctx, "lits": longs})
         r.run_cases(cases, chunksize=2)
